@@ -152,6 +152,11 @@ func handleSubStr(params internal.HandlerFuncParams) ([]byte, error) {
 		end = 0
 	}
 
+	if end > len(value) {
+		// Clamp before the inclusive end is turned into an exclusive one: a huge index must not overflow.
+		end = len(value)
+	}
+
 	if end >= 0 && end >= start {
 		end += 1
 	}
